@@ -70,7 +70,7 @@ def exReqUpgrade : Request where
     (bs "Cookie", bs "a=1"),
     (bs "Cookie", bs "b=2")]
 
-/-- two `Via` and two `X-Forwarded-For` lines (F11a, F11b) -/
+/-- two `Via` and two `X-Forwarded-For` lines (the shapes of the former findings F11a, F11b) -/
 def exReqChains : Request where
   method := bs "GET"
   minor := 1
